@@ -218,6 +218,9 @@ func genC06(t *rapid.T) progCase {
 		}
 		return single(sb.String(), "names")
 	default:
+		if gen.Pick(t, "soup", 2, 1) == 1 {
+			return genSoup(t)
+		}
 		return genFileSet(t, false)
 	}
 }
